@@ -135,4 +135,71 @@ theorem entityAt_cached_model (w : Arche.World) (I : LenInterp w archLenF)
     rw [hget, EI]
 
 end
+
+/-! ### random access into batch queries -/
+
+theorem locateB_pos_ge (rs : List (BitVec 32 × BitVec 32)) (p : Nat) (c i : BitVec 32) (pr : Nat × BitVec 32) (h : locateB rs p c i = some pr) : p ≤ pr.1 := by
+  induction rs generalizing p c with
+  | nil => simp [locateB] at h
+  | cons r rest ih =>
+    obtain ⟨st, en⟩ := r
+    unfold locateB at h
+    split at h
+    · simp only [Option.some.injEq] at h; rw [← h]; exact Nat.le_refl _
+    · have := ih _ _ h; omega
+
+theorem locateB_pos_lt (rs : List (BitVec 32 × BitVec 32)) (p : Nat) (c i : BitVec 32) (pr : Nat × BitVec 32) (h : locateB rs p c i = some pr) : pr.1 < p + rs.length := by
+  induction rs generalizing p c with
+  | nil => simp [locateB] at h
+  | cons r rest ih =>
+    obtain ⟨st, en⟩ := r
+    unfold locateB at h
+    split at h
+    · simp only [Option.some.injEq] at h; rw [← h]; simp
+    · have := ih _ _ h; simp only [List.length_cons]; omega
+
+/-- `locateB` against the model's walk over the recorded ranges `(table, start, stop − start)`: same entry and the row
+    `start + offset`, for well-formed ranges (`start ≤ stop < 2³²`) whose lengths do not overflow -/
+theorem locateB_model (w : Arche.World) (bs : List BatchEntry) (pos count idx : Nat)
+    (hwf : ∀ b ∈ bs, b.start ≤ b.stop ∧ b.stop < 4294967296)
+    (hno : count + (bs.map (fun b => b.stop - b.start)).sum < 4294967296) (hc : count ≤ idx) (hi : idx < 4294967296) :
+    (locateB (bs.map (fun b => (BitVec.ofNat 32 b.start, BitVec.ofNat 32 b.stop))) pos (BitVec.ofNat 32 count) (BitVec.ofNat 32 idx)).map
+        (fun pr => (w.tableOf (bs.getD (pr.1 - pos) default).tbl).getEntity pr.2.toNat) =
+      Arche.Query.entityAtIn w (bs.map (fun b => (b.tbl, b.start, b.stop - b.start))) (idx - count) := by
+  induction bs generalizing pos count with
+  | nil => simp [locateB, Arche.Query.entityAtIn]
+  | cons b bs ih =>
+    have hb := hwf b List.mem_cons_self
+    simp only [List.map_cons, List.sum_cons] at hno
+    simp only [List.map_cons, locateB, Arche.Query.entityAtIn]
+    have hsub : BitVec.ofNat 32 b.stop - BitVec.ofNat 32 b.start = BitVec.ofNat 32 (b.stop - b.start) := by
+      apply BitVec.eq_of_toNat_eq
+      rw [BitVec.toNat_sub_of_le (by simp only [BitVec.le_def, BitVec.toNat_ofNat, Nat.mod_eq_of_lt hb.2, Nat.mod_eq_of_lt (show b.start < 4294967296 by omega)]; exact hb.1)]
+      simp only [BitVec.toNat_ofNat, Nat.mod_eq_of_lt hb.2, Nat.mod_eq_of_lt (show b.start < 4294967296 by omega), Nat.mod_eq_of_lt (show b.stop - b.start < 4294967296 by omega)]
+    rw [hsub]
+    have hadd : BitVec.ofNat 32 count + BitVec.ofNat 32 (b.stop - b.start) = BitVec.ofNat 32 (count + (b.stop - b.start)) := by rw [BitVec.ofNat_add]
+    rw [hadd]
+    have hult : BitVec.ult (BitVec.ofNat 32 idx) (BitVec.ofNat 32 (count + (b.stop - b.start))) = decide (idx < count + (b.stop - b.start)) := by
+      simp only [BitVec.ult, BitVec.toNat_ofNat, Nat.mod_eq_of_lt hi, Nat.mod_eq_of_lt (show count + (b.stop - b.start) < 4294967296 by omega)]
+    rw [hult]
+    by_cases hlt : idx < count + (b.stop - b.start)
+    · have h1 : idx - count < b.stop - b.start := by omega
+      simp only [hlt, decide_true, ↓reduceIte, Option.map_some, Nat.sub_self, List.getD_cons_zero, h1]
+      congr 2
+      have hrow : (BitVec.ofNat 32 b.start + BitVec.ofNat 32 idx - BitVec.ofNat 32 count).toNat = b.start + (idx - count) := by
+        simp only [BitVec.toNat_sub, BitVec.toNat_add, BitVec.toNat_ofNat]
+        have h2 := hb.2
+        omega
+      exact hrow
+    · have h1 : ¬ idx - count < b.stop - b.start := by omega
+      simp only [hlt, decide_false, Bool.false_eq_true, ↓reduceIte, h1]
+      have := ih (pos + 1) (count + (b.stop - b.start)) (fun x hx => hwf x (List.mem_cons_of_mem _ hx)) (by omega) (by omega)
+      rw [show idx - count - (b.stop - b.start) = idx - (count + (b.stop - b.start)) by omega, ← this]
+      cases hl : locateB (List.map (fun b => (BitVec.ofNat 32 b.start, BitVec.ofNat 32 b.stop)) bs) (pos + 1) (BitVec.ofNat 32 (count + (b.stop - b.start))) (BitVec.ofNat 32 idx) with
+      | none => rfl
+      | some pr =>
+        simp only [Option.map_some]
+        have hge := locateB_pos_ge _ _ _ _ _ hl
+        rw [show pr.1 - pos = (pr.1 - (pos + 1)) + 1 by omega, List.getD_cons_succ]
+
 end Arche.Props.C03_AtModel64
